@@ -2646,6 +2646,12 @@ class AsyncIOBackend(AsyncBackend):
         while cancel_scope:
             if cancel_scope.cancel_called:
                 await sleep(0)
+
+                # Look again from the task's own scope: while we yielded, the cancelled
+                # scope may have become invisible to us (a scope in between was shielded,
+                # or exited by an abandoned to_thread.run_sync() call), in which case the
+                # cancellation will never be delivered and we must not wait for it
+                cancel_scope = _task_states[task].cancel_scope
             else:
                 cancel_scope = cancel_scope._visible_parent_scope
 
